@@ -59,3 +59,29 @@ Definition hash_elements (xs : list Z) : word :=
     let c0 := if Nat.eqb (Nat.modulo (length xs) 8) 0 then 0 else 1 in
     digest_of (absorb_state (S (length xs)) ([c0;0;0;0] ++ repeat 0 8) xs)
   end.
+
+(* ---- shape facts (they depend only on the generated constants) ------------------------------ *)
+Lemma rpo_round_length st r : (r < RPO_NUM_ROUNDS)%nat -> length (rpo_round st r) = 12%nat.
+Proof.
+  intros Hr. unfold rpo_round, add_consts, apply_mds.
+  rewrite !map_length, combine_length, !map_length.
+  do 7 (destruct r as [|r]; [vm_compute; reflexivity|]).
+  exfalso. change RPO_NUM_ROUNDS with 7%nat in Hr. lia.
+Qed.
+
+Lemma fold_rounds_length rs : forall st,
+  (forall r, In r rs -> (r < RPO_NUM_ROUNDS)%nat) -> rs <> [] ->
+  length (fold_left rpo_round rs st) = 12%nat.
+Proof.
+  induction rs as [|r rs IH]; intros st Hin Hne; [congruence|].
+  cbn [fold_left]. destruct rs as [|r2 rs].
+  - cbn. apply rpo_round_length. apply Hin. left; reflexivity.
+  - apply IH; [intros x Hx; apply Hin; right; exact Hx | discriminate].
+Qed.
+
+Lemma rpo_permute_length st : length (rpo_permute st) = 12%nat.
+Proof.
+  unfold rpo_permute. apply fold_rounds_length.
+  - intros r Hr. apply in_seq in Hr. lia.
+  - vm_compute. discriminate.
+Qed.
